@@ -1230,8 +1230,12 @@ impl store::Cob for Patch {
         concurrent: I,
         repo: &R,
     ) -> Result<(), Error> {
-        debug_assert!(!self.timeline.contains(&op.id));
-        self.timeline.push(op.id);
+        // Nb. The operation is applied to a copy of the state, which replaces the
+        // state only if all actions succeed: a rejected operation has no effect.
+        let mut patch = self.clone();
+
+        debug_assert!(!patch.timeline.contains(&op.id));
+        patch.timeline.push(op.id);
 
         let doc = op.identity_doc(repo)?.ok_or(Error::MissingIdentity)?;
         let concurrent = concurrent.into_iter().collect::<Vec<_>>();
@@ -1239,7 +1243,7 @@ impl store::Cob for Patch {
         for action in op.actions {
             log::trace!(target: "patch", "Applying {} {action:?}", op.id);
 
-            if let Err(e) = self.op_action(
+            if let Err(e) = patch.op_action(
                 action,
                 op.id,
                 op.author,
@@ -1252,6 +1256,8 @@ impl store::Cob for Patch {
                 return Err(e);
             }
         }
+        *self = patch;
+
         Ok(())
     }
 }
